@@ -415,7 +415,13 @@ func (m *Machine) runPath(harness *ssa.Function, prefix []int, arg int) {
 				outcome = "panic"
 				m.violate("uncaught panic: "+msg, x.site, nil)
 			default:
-				panic(r)
+				// a bug or a gap in the executor itself (e.g. a value of an unexpected kind): this
+				// path is inconclusive, the process goes on
+				outcome = "engine"
+				errMsg = fmt.Sprint("internal executor error: ", r)
+				if len(errMsg) > 200 {
+					errMsg = errMsg[:200]
+				}
 			}
 		}()
 		if ex.initState == nil {
